@@ -541,24 +541,41 @@ pub fn c18(ctx: &Ctx, rep: &mut Report) {
         let sets = idx % 4 >= 2;
         // FASTA records with hundreds of sequence lines (every 8th FASTA case)
         let many_lines = fmt == Fmt::Fasta && idx % 16 >= 12 && !ctx.miri;
+        // once per shard and read mode: identical records of 70 000 resp. 1 100 000 one-letter lines
+        // (a line index larger than the data buffer)
+        let giant_lines = fmt == Fmt::Fasta && !ctx.miri && (idx == 4 || idx == 6);
         let cap = if ctx.miri {
             64
-        } else if many_lines {
+        } else if many_lines || giant_lines {
             65536
         } else {
             *rng.pick(&[64usize, 100, 256, 1000, 4096, 65536])
         };
         let max_rec = (cap / 4).clamp(10, 2000);
-        let max_lines = if many_lines { rng.range(260, 700) } else { 4 };
-        let rec_size = if many_lines { max_lines * rng.range(2, 12) } else { rng.range(10, max_rec) };
+        let max_lines = if giant_lines {
+            if ctx.shard % 2 == 0 { 70_000 } else { 1_100_000 }
+        } else if many_lines {
+            rng.range(260, 700)
+        } else {
+            4
+        };
+        let rec_size = if giant_lines {
+            max_lines
+        } else if many_lines {
+            max_lines * rng.range(2, 12)
+        } else {
+            rng.range(10, max_rec)
+        };
         // enough records for >= 6 buffer fills (half warm-up, half measured), at least 40
-        let n = ((14 * cap) / rec_size + 2).max(40).min(if ctx.miri { 60 } else { 100_000 });
+        let n = if giant_lines { 8 } else { ((14 * cap) / rec_size + 2).max(40).min(if ctx.miri { 60 } else { 100_000 }) };
         let warm = n / 2;
         let mut input = vec![];
         let mut sizes = vec![];
         for i in 0..n {
             // identical records for record sets; variable (bounded by the warm-up maxima) for next()
-            let (sz, nlines) = if sets {
+            let (sz, nlines) = if giant_lines {
+                (rec_size, max_lines)
+            } else if sets {
                 (rec_size, if many_lines { max_lines } else { 1 + (rec_size % 3) })
             } else if i < warm {
                 if i == 3 { (rec_size, max_lines) } else { (rng.range(8, rec_size), 1 + rng.below(max_lines)) }
@@ -749,7 +766,7 @@ pub fn c18(ctx: &Ctx, rep: &mut Report) {
         match res {
             Err(c) => crate::m_basic::caught_violation(rep, &c, "steady-state reading", replay()),
             Ok((a, r, g, changed, outside, measured, applicable)) => {
-                rep.map("mode", &format!("{}:{}{}", fmt.name(), if sets { "record_set" } else { "next" }, if many_lines { ":many-lines" } else { "" }));
+                rep.map("mode", &format!("{}:{}{}", fmt.name(), if sets { "record_set" } else { "next" }, if giant_lines { ":giant-lines" } else if many_lines { ":many-lines" } else { "" }));
                 if !applicable {
                     rep.count("not_applicable_batch_grew");
                 } else {
